@@ -26,6 +26,7 @@ SHAPES = [
     ("(q+q)/q", 3, lambda a, b, c: B("/", B("+", a, b), c)), ("x*q", 1, lambda a: B("*", V("x"), a)), ("1-q", 1, lambda a: B("-", N("1"), a)),
     ("q/c", 1, lambda a: B("/", a, C[2])), ("q-2*q", 2, lambda a, b: B("-", a, B("*", N("2"), b))), ("q/q-q", 3, lambda a, b, c: B("-", B("/", a, b), c)),
 ]
+SHAPES += [("q*q-q (repeated)", 2, lambda a, b: B("-", B("*", a, a), b)), ("q+c", 1, lambda a: B("+", a, N("1"))), ("c-q/q", 2, lambda a, b: B("-", N("0.5"), B("/", a, b)))]
 SHAPES_T = [("q*q*q-q", 4, lambda a, b, c, d: B("-", B("*", B("*", a, b), c), d)), ("q**2-q/q", 3, lambda a, b, c: B("-", B("**", a, N("2")), B("/", b, c)))]
 
 
